@@ -69,8 +69,63 @@ def rawStr : Tag → Dest → PyStr
   | .nav1, d => navMark 1 ++ d.str
   | .nav2, d => navMark 2 ++ d.str
 
+/-- the raw string of a tagged destination -/
+def rawOf (p : Tag × Dest) : PyStr := rawStr p.1 p.2
+
 /-- the ids of a table of `n` segments followed by `"END"`, as code points (driver request `ids`) -/
 def idTable (n : Nat) : List PyStr := (List.range n).map segId ++ [endId]
+
+/-- insert into a strictly increasing list of strings unless present: `list(set(..))` followed by `.sort()` -/
+def insStr (x : PyStr) : List PyStr → List PyStr
+  | [] => [x]
+  | y :: ys => if pyLt x y then x :: y :: ys else if x = y then y :: ys else y :: insStr x ys
+
+/-- stable insertion after the elements that are `<=`: `list.sort()` (stable) on the `"<n>_Volta_<ID>"` strings -/
+def insStrStable (x : PyStr) : List PyStr → List PyStr
+  | [] => [x]
+  | y :: ys => if pyLe y x then y :: insStrStable x ys else x :: y :: ys
+
+/-- the ordering half of the "clean up and ORDER" block of `_make_segments` on the four lists of strings
+(`destinations_no_volta`, `destinations_volta`, `destinations_navigation1`, `destinations_navigation2`): the END
+shuffle, the two sorts, `d[8:]`, the split at `own_id` for a segment that ends with a da capo / dal segno -/
+def orderStr (own : PyStr) (noVolta volta nav1 nav2 : List PyStr) : List PyStr × List PyStr :=
+  let jumpsBack := !nav1.isEmpty
+  let hasEnd := (volta ++ noVolta ++ nav1).contains endId
+  let noVolta := if hasEnd then noVolta.filter fun d => d != endId else noVolta
+  let nav1 := if hasEnd then nav1 ++ [endId] else nav1
+  let noVolta := noVolta.foldl (fun acc d => insStr d acc) []
+  let volta := (volta.foldl (fun acc d => insStrStable d acc) []).map fun d => d.drop 8
+  let noVolta := noVolta.filter fun d => !volta.contains d
+  if jumpsBack then
+    let onward := noVolta.filter fun d => pyLt own d
+    let noVolta := noVolta.filter fun d => pyLe d own
+    (volta ++ noVolta ++ ((nav1.filter fun d => d != endId) ++ onward ++ nav1.filter fun d => d == endId), nav2)
+  else (volta ++ noVolta ++ nav1, nav2)
+
+/-- the whole block on the raw strings as the code has them, for the segment with id `own`: `(to, await_to)` -/
+def cleanToStr (own : PyStr) (raw : List PyStr) : List PyStr × List PyStr :=
+  orderStr own
+    (raw.filter fun d => !pyContains voltaSub d && !pyContains navSub d)
+    (raw.filter fun d => pyContains voltaSub d)
+    ((raw.filter fun d => pyContains (navMark 1) d).map fun d => d.drop 12)
+    ((raw.filter fun d => pyContains (navMark 2) d).map fun d => d.drop 12)
+
+/-- `buildSegs` on strings: `(to, await_to)` of every segment, by the string algorithm, from the raw destinations
+the boundary pass collected -/
+def buildStr : Nat → List Int → List SegInfo → List (List PyStr × List PyStr)
+  | i, _ :: e :: rest, inf :: infs => cleanToStr (segId i) (inf.to.map rawOf) :: buildStr (i + 1) (e :: rest) infs
+  | _, _, _ => []
+
+/-- `add_segments` with the cleanup done on strings: the `to` / `await_to` lists of id strings (driver request
+`segstr`, compared with the real `Segment.to` / `Segment.await_to`) -/
+def mkSegmentsStr (L : Layout) : Option (List (List PyStr × List PyStr)) :=
+  if !L.supported then none else
+  let tb := mkTable L
+  let times := tb.map (·.1)
+  let n := times.length - 1
+  match procAll L tb times 0 times { info := List.replicate n {} } with
+  | none => none
+  | some st => some (buildStr 0 times st.info)
 
 /-- ids counted like spreadsheet columns: A … Z, AA, AB, … (NOT what the code does; see
 `alphaId_not_monotone`) -/
